@@ -147,7 +147,7 @@ Theorem C04_unary_operand : forall (A G D C E : Type) (OPS : ops A G D C)
     next A G D C E OPS s = Ok tt s1 /\ k_unary A G D C E self s1 = Ok x s' /\
     match classify_unary op with
     | UCPlain => n = n_operation A C pos op x None
-    | UCAnd => n = n_operation A C pos op (unparen A C x) None
+    | UCAnd => n = n_operation A C pos op x None
     | UCArrow =>
         if is_tag GTypeChannel x then reset_chan_arrow A C E pos x = inl n
         else n = n_operation A C pos op x None
@@ -158,16 +158,19 @@ Print Assumptions C04_unary_operand.
 
 (* hence  -a * b  is  (-a) * b : the unary operation is the first OPERAND of the
    binary tree, and every binary operator of the expression lies after and
-   above it *)
+   above it.  (The upd_depth terms are Parser.depth bookkeeping: the
+   unary-expression production runs one nesting level deeper and restores the
+   depth when it returns; upd_depth touches no other field of the state.) *)
 Theorem C04_unary_binds_tighter : forall (A G D C E : Type) (OPS : ops A G D C)
     d p s n s' pos op,
   k_binary A G D C E (parsers_at A G D C E OPS d) None p s = Ok n s' ->
   s_cur A G D E s = Some (pos, TOperator op) -> classify_unary op = UCPlain ->
   exists (t : bexp A C) x s1 s2 rest,
     n = to_node t /\ PrecWF t /\
-    next A G D C E OPS s = Ok tt s1 /\ unary_result OPS s1 x s2 /\
+    next A G D C E OPS (upd_depth A G D E s (S (s_depth A G D E s))) = Ok tt s1 /\
+    unary_result OPS s1 x s2 /\
     flat t = IOperand (n_operation A C pos op x None) :: rest /\
-    Trace OPS (unary_result OPS) s2 rest s'.
+    Trace OPS (unary_result OPS) (upd_depth A G D E s2 (pred (s_depth A G D E s2))) rest s'.
 Proof. exact unary_binds_tighter. Qed.
 Print Assumptions C04_unary_binds_tighter.
 
